@@ -51,7 +51,20 @@ def check_C13(report):
     # the same with lock files left by killed writers as environment steps
     seq.model_check(report, 3, 4, ['Inv_PackNumbering', 'Refines', 'Inv_IndexOK'], ['Act_AppendOnly', 'Act_OnlyLastPackGrows'],
                     config='MC_SeqLocks')
-    seq.run_histories(report, 'C13', n, length, ['C13'], sim=(80 if report.tier == 'quick' else 1200, 12))
+    # two handles that both write to packs, one of them with an index snapshot older than the other's commits (monitor
+    # only: DosSeq has no model of SQLite refusing to write from a stale snapshot, so these stay below that limit: the
+    # stale handle only passes contents it knows)
+    extra = []
+    ap = lambda h, ks, nh, tw, z=False: {'name': 'addpack', 'h': h, 'keys': ks, 'z': z, 'noholes': nh, 'twice': tw, 'via': 'bytes'}  # noqa
+    for target in (10 ** 9, 60):
+        for nh, tw in ((True, True), (True, False), (False, True)):
+            for pin in ({'name': 'has', 'h': 'h1', 'keys': ['k2']}, {'name': 'list', 'h': 'h1'}, {'name': 'get', 'h': 'h1', 'keys': ['k2', 'k9']}):
+                steps = [ap('h1', ['k2'], False, True), dict(pin), ap('h2', ['k3', 'k5'], False, True, z=True),
+                         ap('h1', ['k2', 'k2'] if nh else [], nh, tw), {'name': 'get', 'h': 'h2', 'keys': ['k2', 'k3', 'k5']},
+                         {'name': 'reopen', 'h': 'h1'}, ap('h1', ['k6'], nh, tw), {'name': 'get', 'h': 'h1', 'keys': ['k2', 'k3', 'k5', 'k6']}]
+                extra.append(({'hash': 'sha256', 'prefix': 2, 'zlevel': 1, 'target': target, 'noconform': True}, steps))
+    seq.run_histories(report, 'C13', n, length, ['C13'], extra_histories=extra, sim=(80 if report.tier == 'quick' else 1200, 12))
+    report.set('two_writer_histories', len(extra))
     report.assumptions += ASSUME
 
 
@@ -124,6 +137,8 @@ def multi_history(rng, length):
                 # mostly keys that exist (no fallback => the snapshot stays pinned), sometimes absent ones
                 pool = keys if rng.random() < 0.7 else seq.UNIVERSE
                 step['keys'] = sorted({rng.choice(pool) for _ in range(rng.randint(1, 3))})
+                if len(step['keys']) == 1 and rng.random() < 0.6:
+                    step['single'] = 'stream' if kind == 'get' and rng.random() < 0.5 else True
             steps.append(step)
     return steps
 
@@ -142,6 +157,8 @@ def multi_aba(rng):
     views = {
         'has': {'name': 'has', 'keys': ['k1', 'k2', 'k3']}, 'get': {'name': 'get', 'keys': ['k1', 'k3']},
         'meta': {'name': 'meta', 'keys': ['k2', 'k3']}, 'list': {'name': 'list'}, 'listpart': {'name': 'listpart'},
+        'has1': {'name': 'has', 'keys': ['k3'], 'single': True}, 'get1': {'name': 'get', 'keys': ['k3'], 'single': True},
+        'get1s': {'name': 'get', 'keys': ['k3'], 'single': 'stream'}, 'meta1': {'name': 'meta', 'keys': ['k3'], 'single': True},
     }
     disturbances = {
         'add-packz-pp': [{'name': 'add', 'h': 'h2', 'keys': ['k3'], 'via': 'bytes'},
